@@ -254,6 +254,11 @@ func checkC12(c *core.Ctx) error {
 		}
 		sort.Strings(keys)
 		for _, k := range keys {
+			if k == "__nest" {
+				// typeable only after a first generation pass and a reload; sort and keys keep the (global) default-derived prefix
+				fmt.Fprintf(&b, "\nfunc nest(m map[string]*S1) []string {\n\treturn %sSort(%sKeys(m))\n}\n", names[k], names[k])
+				continue
+			}
 			typ := "*S2"
 			if k == "main" {
 				typ = "*S1"
@@ -263,6 +268,9 @@ func checkC12(c *core.Ctx) error {
 				args = "a"
 			}
 			fmt.Fprintf(&b, "\nfunc use_%s(a, b %s) {\n\t%s(%s)\n}\n", k, typ, names[k], args)
+		}
+		if nestPfx := names["__nest"]; nestPfx != "" {
+			_ = nestPfx
 		}
 		sc.Files["p/calls.go"] = b.String()
 		return sc
@@ -279,6 +287,9 @@ func checkC12(c *core.Ctx) error {
 		d := cases[i]
 		namesR := map[string]string{"main": d.Call}
 		namesD := map[string]string{"main": d.Twin}
+		if i%2 == 0 {
+			namesR["__nest"], namesD["__nest"] = d.Global, "derive"
+		}
 		want := map[string]string{d.Call: d.Plugin}
 		for p, pre := range d.Eff {
 			namesR["x"+p] = pre + "Z"
